@@ -80,6 +80,9 @@ def render_value(v):
 def pick_amount(ctx, around=None):
     r = ctx.rng
     if ctx.p.get("small_values"):
+        if r.random() < ctx.p.get("big", 0.0):
+            # few distinct values, but beyond one machine word: numbers whose digits can be added to in place
+            return r.choice([BIG, BIG, 2 * BIG, BIG + 5, 3 * BIG])
         return r.choice([0, 3, 5, 5, 10, 10, 10, 12])
     x = r.random()
     if around is None and ctx.balances and r.random() < ctx.p.get("exact_balance", 0.3):
@@ -193,9 +196,14 @@ def gen_portions(ctx, k):
         if qs[i] < 0:
             qs[i] = Fraction(2, den) + qs[i]
     use_remaining = (not bad) and r.random() < 0.5
+    # several `remaining` clauses in one allotment: the last one takes the rest, the earlier ones nothing
+    extra_rem = r.randrange(k - 1) if (use_remaining and k >= 2 and ctx.chance("multi_remaining", 0.0)) else None
     out = []
     for i, q in enumerate(qs):
-        if use_remaining and i == k - 1:
+        if extra_rem is not None and i == extra_rem:
+            out.append(("remaining", None))
+            ctx.features.add("remaining-twice")
+        elif use_remaining and i == k - 1:
             out.append(("remaining", None))
             ctx.features.add("remaining")
         elif ctx.chance("portion_var", 0.2) and 0 <= q <= 1:
@@ -280,6 +288,8 @@ def gen_dest(ctx, asset, depth, amount):
         clauses = []
         for _ in range(n):
             cap = r.choice([0, 1, 2, 5, 10, -5]) if r.random() < 0.6 else pick_amount(ctx, amount)
+            if ctx.p.get("small_values") and r.random() < 0.7:
+                cap = pick_amount(ctx)           # caps from the same few values as the amounts (one variable, many roles)
             if cap < 0:
                 ctx.features.add("negative-cap-dst")
             kt, kd = gen_kod(ctx, asset, depth - 1, amount)
@@ -448,6 +458,23 @@ def gen_case(seed, index, profile=None):
             stmts.insert(0, ("send [%s %d] (\n  source = @%s allowing unbounded overdraft\n  destination = @y\n)" % (asset, n, acc),
                              ('send', asset, n, ('unb', acc), ('acct', 'y'))))
 
+    # merge-then-reuse shape: a monetary variable caps a clause whose receiver is also the next receiver (the two
+    # postings are merged into one), more is sent than the cap, and the variable is read again afterwards
+    if ctx.chance("merge_shape", 0.05):
+        asset = rng.choice(ASSETS)
+        fee = rng.choice([5, 10, BIG, BIG + 7, 2 * BIG, BIG * BIG])
+        price = fee * rng.choice([2, 3]) + rng.choice([0, 1])
+        fee_t = ctx.declare("monetary", ('monetary', asset, fee), "%s %d" % (asset, fee))
+        price_t = ctx.declare("monetary", ('monetary', asset, price), "%s %d" % (asset, price))
+        p1, p2, p3 = rng.choice(ACCOUNTS), rng.choice(ACCOUNTS), rng.choice(ACCOUNTS)
+        first = ("send %s (\n  source = @world\n  destination = { max %s to @%s remaining to @%s }\n)" % (price_t, fee_t, p1, p1),
+                 ('send', asset, price, ('acct', 'world', 0), ('inorder', [(fee, ('to', ('acct', p1)))], ('to', ('acct', p1)))))
+        again = ("send %s (\n  source = @world\n  destination = { max %s to @%s remaining to @%s }\n)" % (price_t, fee_t, p2, p3),
+                 ('send', asset, price, ('acct', 'world', 0), ('inorder', [(fee, ('to', ('acct', p2)))], ('to', ('acct', p3)))))
+        seen = ('set_tx_meta("fee_seen", %s)' % fee_t, ('txmeta', "fee_seen", ('monetary', "%s %d" % (asset, fee))))
+        stmts = [first] + stmts + [again, seen]
+        ctx.features.add("merge-then-reuse")
+
     # optional balance()/overdraft()/meta() origins (C10 stream)
     origin_lines = []
     flags = []
@@ -496,6 +523,21 @@ def gen_case(seed, index, profile=None):
                     ctx.features.add("origin-meta-missing")
                     ctx.meta_missing = (a, missing)
 
+    if ctx.chance("origins", 0.0) and rng.random() < 0.35:
+        # an account read from metadata: the stored text must be a well-formed account name
+        a = rng.choice(ACCOUNTS)
+        stored = rng.choice(["x", "d", "users:001", "x", "", "<kept>", "a b", "x:", ":x", "@x", "é"])
+        ctx.meta[(a, "acct")] = stored
+        nm = ctx.fresh("acc")
+        ctx.decls.append(("account", nm, 'meta(@%s, "acct")' % a))
+        ctx.features.add("origin-meta-account")
+        import re as _re
+        if _re.fullmatch(r"[a-zA-Z0-9_-]+(:[a-zA-Z0-9_-]+)*", stored):
+            ctx.meta_account_var = (nm, stored)
+        else:
+            ctx.meta_account_bad = (a, stored)
+            ctx.features.add("origin-meta-account-invalid")
+
     if ctx.chance("bad_origin", 0.0):
         o = rng.choice(['set_tx_meta("k", 1)', 'set_account_meta(@a, "k", 1)', 'foo(@a)', 'balances(@a, USD)', 'saves(@a)'])
         ctx.decls.append((rng.choice(["number", "monetary", "string"]), ctx.fresh("bad"), o))
@@ -510,6 +552,15 @@ def gen_case(seed, index, profile=None):
             dt, rd = gen_dest(ctx, v[1], 1, v[2])
             extra.append(("send $%s (\n  source = %s\n  destination = %s\n)" % (name, st, dt),
                           ('send', v[1], v[2], rs, rd)))
+    if getattr(ctx, "meta_account_bad", None):
+        # the declaration fails first (InvalidAccountName); were it accepted, the name would reach a posting
+        bad_nm = [n for (t, n, o) in ctx.decls if o and o.endswith('"acct")')][0]
+        extra.append(("send [USD 2] (\n  source = @world\n  destination = $%s\n)" % bad_nm,
+                      ('error', "InvalidAccountName", [ctx.meta_account_bad[1]])))
+    if getattr(ctx, "meta_account_var", None):
+        nm, stored = ctx.meta_account_var
+        extra.append(("send [USD 2] (\n  source = @world\n  destination = $%s\n)" % nm,
+                      ('send', 'USD', 2, ('acct', 'world', 0), ('acct', stored))))
     stmts = extra + stmts if rng.random() < 0.5 else stmts + extra
 
     vars_block = ""
@@ -524,6 +575,9 @@ def gen_case(seed, index, profile=None):
     for (t, name, origin) in ctx.decls:
         if origin and origin.split("(")[0] not in ("meta", "balance", "overdraft"):
             var_error = ("UnboundFunctionErr", [origin.split("(")[0]])
+            break
+        if origin and origin.endswith('"acct")') and getattr(ctx, "meta_account_bad", None):
+            var_error = ("InvalidAccountName", [ctx.meta_account_bad[1]])
             break
         if origin and origin.startswith("meta(") and "absent_key" in origin:
             a = origin[len("meta(@"):].split(",")[0]
